@@ -51,7 +51,7 @@ class Ob:
                 if chosen:
                     break
             witness = chosen or (witness[-1][1] if witness else None)
-        d = {"id": self.id, "engine": "smt", "doc": self.doc, "bounds": self.bounds,
+        d = {"id": self.id, "engine": "smt", "doc": self.doc, "notes": self.notes[:6], "bounds": self.bounds,
              "queries": self.queries + (it.queries if it else 0), "obligation_queries": self.queries, "time_s": round(time.time() - self.t0, 2),
              "paths": self.paths, "truncated_paths": self.truncated, "source_fn": self.fn.name if self.fn else None}
         if self.failures:
@@ -1481,6 +1481,254 @@ def journal_entry_acceptance(fns):
                 ob.need(it, p.pc, z3.Not(valid), "an entry is rejected only if it is NOT a valid in-device extent")
     ob.must_hold(accepted >= 1 and rejected >= 1, "accepting and rejecting paths of the entry loop were reached")
     return ob.result(it, witness="c03_journal_extent_at_device_end")
+
+
+def _le_field_reads(p):
+    """[(start, end, value)] for every `uN::from_le_bytes(data[start..end].try_into().unwrap())` on the path, in order"""
+    by_ret = {}
+    for e in p.events:
+        if e.kind == "call" and getattr(e, "ret", None) is not None:
+            by_ret[str(e.ret)] = e
+    slices = {}
+    last_slice = None
+    for e in p.events:
+        if e.kind == "slice":
+            last_slice = e
+        elif e.kind == "call" and "::index" in e.callee and last_slice is not None:
+            slices[str(e.ret)] = last_slice
+    out = []
+    for e in p.events:
+        if e.kind == "call" and e.callee.endswith("from_le_bytes") and z3.is_bv(e.ret):
+            a = by_ret.get(str(e.args[0]))          # unwrap(tryinto)
+            b = by_ret.get(str(a.args[0])) if a is not None else None   # try_into(slice)
+            sl = slices.get(str(b.args[0])) if b is not None else None
+            if sl is not None:
+                out.append((sl.args[1], sl.args[2], e.ret, sl.args[0]))
+    return out
+
+
+def journal_slot_acceptance(fns):
+    """decode_slot's header: a slot image is accepted exactly when the documented validity conditions hold, and the
+    state handed back is the one parsed from the documented offsets"""
+    f = mir.find(fns, "::decode_slot", None)
+    ob = Ob("c03_journal_slot_acceptance", "allocation_journal::decode_slot, header part, every MIR path: the fields are read from the documented offsets of THIS slot "
+            "(version 8..12, checksum 12..16, generation 16..24, state 24..28, count 28..32, complement 32..36); the slot gets past the header exactly when "
+            "magic matches, version in {1,2}, generation != 0, count <= 1024, state in {CLEAR,ACTIVE} with CLEAR <=> count == 0, complement == !checksum and "
+            "journal_checksum(data[..L]) == checksum with L = whole slot for version 1 and the compact image size ceil((40+8*count)/4096)*4096 for version 2; "
+            "an Ok result carries the parsed generation, the caller's slot index and the vector the accepted entries were pushed to",
+            "all values of the six header fields; the CRC and the magic comparison are havocked (any result); one arbitrary iteration of the entry loops", f)
+    inl = {"::journal_image_size": mir.find(fns, "::journal_image_size", None)}
+    it = Interp(f, loop_bound=1, pure=PURE, inline=inl, slices=True)
+    data = z3.Const("data", U)
+    slot = z3.BitVec("slot", 64)
+
+    def init(it_, st):
+        st["env"]["_1"] = data
+        st["env"]["_3"] = slot
+    past = rejected = oks = 0
+    for p in it.run(init):
+        ob.paths += 1
+        if p.status == "truncated":
+            ob.truncated += 1
+        if p.status != "return":
+            continue
+        reads = _le_field_reads(p)
+        fld = {}
+        for (a, b, v, base) in reads:
+            if z3.is_bv_value(a) and z3.is_bv_value(b) and z3.eq(it.as_u(base), data):
+                fld.setdefault((a.as_long(), b.as_long()), v)
+        ne = [e for e in p.events if e.kind == "call" and e.callee.endswith("::ne") or (e.kind == "call" and e.callee.endswith("::eq") and "PartialEq" in e.callee)]
+        got_past = bool(events(p, "Vec::with_capacity"))
+        crc = events(p, "journal_checksum")
+        want = [(8, 12), (16, 24), (24, 28), (28, 32), (12, 16), (32, 36)]
+        if got_past:
+            past += 1
+            if not ob.must_hold(all(k in fld for k in want) and len(ne) >= 1 and len(crc) == 1,
+                                "a slot that gets past the header had all six fields read from the documented offsets of this slot, its magic compared and one checksum computed"):
+                continue
+        if not all(k in fld for k in want) or not ne or not crc:
+            # early rejects: every condition evaluated so far must have been a failing one – handled below by the same formula
+            pass
+        ver = fld.get((8, 12)); gen = fld.get((16, 24)); state = fld.get((24, 28)); cnt = fld.get((28, 32))
+        cks = fld.get((12, 16)); cmpl = fld.get((32, 36))
+        conds = []
+        if ne:
+            nret = ne[0].ret
+            conds.append(z3.Not(nret) if ne[0].callee.endswith("::ne") else nret)
+            sl = [e for e in p.events if e.kind == "slice"]
+            ob.must_hold(sl and z3.is_bv_value(sl[0].args[1]) and sl[0].args[1].as_long() == 0 and z3.is_bv_value(sl[0].args[2]) and sl[0].args[2].as_long() == 8
+                         and "promoted" in str(ne[0].args[1]) + str(ne[0].args[0]),
+                         "the magic comparison is over data[..8] against the constant")
+        if ver is not None:
+            conds.append(z3.Or(ver == 1, ver == 2))
+        if gen is not None and state is not None and cnt is not None:
+            conds.append(z3.And(gen != 0, z3.ULE(cnt, 1024), z3.Or(state == 0, state == 1), (state == 0) == (cnt == 0)))
+        if cks is not None and cmpl is not None and crc:
+            c64 = z3.ZeroExt(32, cnt)
+            img = z3.UDiv(40 + 8 * c64 + 4095, z3.BitVecVal(4096, 64)) * 4096
+            L = z3.If(ver == 1, z3.BitVecVal(12288, 64), img)
+            conds.append(z3.And(cmpl == ~cks, crc[0].ret == cks))
+            # which bytes were summed
+            csl = None
+            prev = None
+            for e in p.events:
+                if e.kind == "slice":
+                    prev = e
+                if e is crc[0]:
+                    csl = prev
+            if ob.must_hold(csl is not None and z3.eq(it.as_u(csl.args[0]), data), "the checksum is computed over a prefix of this slot"):
+                ob.need(it, crc[0].pc, z3.And(csl.args[1] == 0, csl.args[2] == L),
+                        "checksum image = data[..L], L = 12288 for version 1, ceil((40+8*count)/4096)*4096 for version 2")
+        elif cks is not None and cmpl is not None:
+            conds.append(cmpl == ~cks)
+        valid = z3.And(*conds) if conds else z3.BoolVal(True)
+        if got_past:
+            ob.need(it, p.pc, valid, "a slot gets past the header only if every documented validity condition holds")
+        else:
+            rejected += 1
+            isok, _ = it.entails(p.pc, it.ctx.disc(it.as_u(p.ret)) == 0) if p.ret is not None else (False, None)
+            ob.must_hold(not isok, "a path that does not reach the entry loop returns Err")
+            ob.need(it, p.pc, z3.Not(valid), "a slot is rejected in the header only if one of the conditions evaluated so far fails (no valid image is refused)")
+        if got_past and p.ret is not None:
+            isok, _ = it.entails(p.pc, it.ctx.disc(it.as_u(p.ret)) == 0)
+            if isok:
+                oks += 1
+                js = it.ctx.tups.get(str(it.as_u(p.ret)))
+                if isinstance(js, mir.Tup) and len(js.fields) == 3:
+                    vec = events(p, "Vec::with_capacity")[0].ret
+                    ob.need(it, p.pc, js.fields[0] == gen, "Ok carries the generation parsed from bytes 16..24")
+                    ob.need(it, p.pc, js.fields[1] == slot, "Ok carries the caller's slot index")
+                    ob.must_hold(z3.is_expr(js.fields[2]) and z3.eq(it.as_u(js.fields[2]), it.as_u(vec)), "Ok carries the vector of accepted entries (in journal order, not the sorted copy's allocation)")
+                else:
+                    ob.must_hold(False, "Ok(JournalState{generation, slot, extents}) aggregate not recognised")
+    ob.must_hold(past >= 1 and rejected >= 5 and oks >= 1, "accepting, rejecting and Ok paths were reached (%d/%d/%d)" % (past, rejected, oks))
+    return ob.result(it, witness="c03_journal_slot_selection")
+
+
+def _closure_of(raw):
+    m = re.search(r"(\{closure@[^}]*\})", raw)
+    return mir.CLOSURES.get(m.group(1)) if m else None
+
+
+def journal_slot_selection(fns):
+    """decode: which of the two slots is believed"""
+    f = mir.find(fns, "::decode", None)
+    ob = Ob("c03_journal_slot_selection", "allocation_journal::decode: each slot i in 0..2 is the 3-block window data[i*12288..(i+1)*12288]; an all-zero slot is recorded as missing, "
+            "any other slot goes through decode_slot(window, total_sectors, i) and is a candidate only if that returned Ok; the answer is the candidate with the "
+            "GREATEST generation (max_by_key over `.generation`), else the LAST missing slot with generation 0 and no extents, else CorruptedRecord; a buffer "
+            "that is not exactly 6 blocks is rejected before anything is read",
+            "one arbitrary iteration of the slot loop (0 <= i < 2), then the selection; decode_slot, the iterator adaptors and the zero test are summarised "
+            "(closure bodies are read from their own MIR)", f)
+    it = Interp(f, loop_bound=1, pure=PURE, slices=True)
+    data = z3.Const("data", U)
+    total = z3.BitVec("total_sectors", 64)
+
+    def init(it_, st):
+        st["env"]["_1"] = data
+        st["env"]["_2"] = total
+    n_iter = n_ok = n_missing = n_err = 0
+    for p in it.run(init):
+        ob.paths += 1
+        if p.status == "truncated":
+            ob.truncated += 1
+        if p.status != "return":
+            continue
+        caps = events(p, "Vec::with_capacity")
+        if not caps:
+            # length check failed
+            ob.need(it, p.pc, it.len_of(data) != 6 * 4096, "returns before reading anything only when the buffer is not 6 blocks long")
+            isok, _ = it.entails(p.pc, it.ctx.disc(it.as_u(p.ret)) == 1)
+            ob.must_hold(isok, "a buffer of the wrong length is an error")
+            continue
+        ob.need(it, caps[0].pc, it.len_of(data) == 6 * 4096, "slots are read only from a 6-block buffer")
+        if not ob.must_hold(len(caps) == 2, "two collections: candidates and missing slots"):
+            continue
+        valid_vec, missing_vec = caps[0].ret, caps[1].ret
+        pushes = events(p, "Vec::push")
+        dslot = events(p, "decode_slot")
+        alls = [e for e in p.events if e.kind == "call" and e.callee.endswith("as Iterator>::all")]
+        sl = [e for e in p.events if e.kind == "slice"]
+        if alls:
+            n_iter += 1
+            rn = [e for e in p.events if e.kind == "call" and e.callee.endswith("Range<usize> as Iterator>::next")][0]
+            i = it.ctx.uf("proj_Some_0", [U], z3.BitVecSort(64))(rn.ret)
+            ob.need(it, alls[0].pc, z3.And(z3.ULT(i, 2)), "slot index in 0..2")
+            if ob.must_hold(len(sl) == 1 and z3.eq(it.as_u(sl[0].args[0]), data), "one window of the journal buffer per slot"):
+                ob.need(it, alls[0].pc, z3.And(sl[0].args[1] == i * 12288, sl[0].args[2] == i * 12288 + 12288), "window = data[i*12288 .. (i+1)*12288]")
+            cf = _closure_of(alls[0].callee + " " + " ".join(str(a) for a in alls[0].args))
+            okc = False
+            if cf is not None:
+                sub = Interp(cf, ctx=it.ctx, loop_bound=1, pure=PURE)
+                b = z3.BitVec("byte", 8)
+
+                def cinit(_it, sst, _cf=cf, _b=b):
+                    sst["env"][_cf.args[1]] = _b
+                rs = [r for r in sub.run(cinit) if r.status == "return"]
+                if len(rs) == 1 and z3.is_bool(rs[0].ret):
+                    okc, _ = it.entails(rs[0].pc, rs[0].ret == (b == 0))
+            ob.must_hold(okc, "the missing-slot test is `every byte == 0`")
+            allz = alls[0].ret
+            if dslot:
+                e = dslot[0]
+                ob.need(it, e.pc, z3.Not(allz), "decode_slot is consulted only for a slot that is not all zero")
+                ob.must_hold(z3.eq(it.as_u(e.args[0]), it.as_u([x for x in p.events if x.kind == "call" and "::index" in x.callee][0].ret)), "decode_slot reads this slot's window")
+                ob.need(it, e.pc, z3.And(e.args[1] == total, e.args[2] == i), "decode_slot gets the device size and this slot's index")
+                d = it.ctx.disc(it.as_u(e.ret))
+                pv = [x for x in pushes if z3.eq(it.as_u(x.args[0]), it.as_u(valid_vec))]
+                if pv:
+                    n_ok += 1
+                    ob.need(it, pv[0].pc, d == 0, "a candidate is pushed only for Ok")
+                    ob.must_hold(z3.eq(it.as_u(pv[0].args[1]), it.as_u(it.ctx.uf("proj_Ok_0", [U], U)(it.as_u(e.ret)))), "the candidate is decode_slot's Ok payload")
+                else:
+                    n_err += 1
+                    ob.need(it, p.pc, d != 0, "a slot that decoded Ok is never dropped")
+                ob.must_hold(not [x for x in pushes if z3.eq(it.as_u(x.args[0]), it.as_u(missing_vec))], "a non-zero slot is never recorded as missing")
+            else:
+                n_missing += 1
+                ob.need(it, p.pc, allz, "decode_slot is skipped only for an all-zero slot")
+                pm = [x for x in pushes if z3.eq(it.as_u(x.args[0]), it.as_u(missing_vec))]
+                if ob.must_hold(len(pm) == 1 and len(pushes) == 1, "an all-zero slot is recorded as missing, once, and is not a candidate"):
+                    ob.need(it, pm[0].pc, pm[0].args[1] == i, "recorded with its own index")
+        # selection
+        mk = [e for e in p.events if e.kind == "call" and e.callee.endswith("::max_by_key")]
+        if not ob.must_hold(len(mk) == 1 and z3.eq(it.as_u(mk[0].args[0]), it.as_u(valid_vec)), "the answer is chosen by max_by_key over the candidates"):
+            continue
+        cf = _closure_of(mk[0].callee + " " + " ".join(str(a) for a in mk[0].args))
+        okk = False
+        if cf is not None:
+            sub = Interp(cf, ctx=it.ctx, loop_bound=1, pure=PURE)
+            js = z3.Const("a_state", U)
+
+            def kinit(_it, sst, _cf=cf, _js=js):
+                sst["env"][_cf.args[1]] = _js
+            rs = [r for r in sub.run(kinit) if r.status == "return"]
+            if len(rs) == 1 and z3.is_bv(rs[0].ret):
+                okk = z3.eq(rs[0].ret, it.ctx.uf("proj__0", [U], z3.BitVecSort(64))(js))
+        ob.must_hold(okk, "the selection key is the state's generation (field 0 of JournalState)")
+        d = it.ctx.disc(it.as_u(mk[0].ret))
+        nb = [e for e in p.events if e.kind == "call" and e.callee.endswith("::next_back")]
+        isok, _ = it.entails(p.pc, it.ctx.disc(it.as_u(p.ret)) == 0)
+        if not nb:
+            ob.need(it, p.pc, d == 1, "the missing slots are skipped only when a candidate exists")
+            ob.must_hold(isok, "with a candidate the answer is Ok")
+            ob.need(it, p.pc, it.ctx.uf("proj_Ok_0", [U], U)(it.as_u(p.ret)) == it.ctx.uf("proj_Some_0", [U], U)(it.as_u(mk[0].ret)),
+                    "with a candidate, the answer is Ok(the max_by_key winner)")
+        else:
+            ob.need(it, nb[0].pc, d == 0, "missing slots are consulted only when there is no candidate")
+            ob.must_hold(z3.eq(it.as_u(nb[0].args[0]), it.as_u(missing_vec)) and not [e for e in p.events if e.kind == "call" and e.callee.endswith("Iterator>::next") and z3.eq(it.as_u(e.args[0]), it.as_u(missing_vec))],
+                         "the LAST missing slot is taken (next_back over the missing list)")
+            dn = it.ctx.disc(it.as_u(nb[0].ret))
+            if isok:
+                ob.need(it, p.pc, dn == 1, "Ok without a candidate needs a missing slot")
+                js = it.ctx.tups.get(str(it.as_u(p.ret)))
+                if ob.must_hold(isinstance(js, mir.Tup) and len(js.fields) == 3, "Ok(JournalState{..}) built in place"):
+                    ob.need(it, p.pc, z3.And(js.fields[0] == 0, js.fields[1] == it.ctx.uf("proj_Some_0", [U], z3.BitVecSort(64))(it.as_u(nb[0].ret))), "generation 0 and the missing slot's index")
+                    vn = events(p, "Vec::new")
+                    ob.must_hold(len(vn) == 1 and z3.eq(it.as_u(js.fields[2]), it.as_u(vn[0].ret)), "no extents")
+            else:
+                ob.need(it, p.pc, dn == 0, "CorruptedRecord only when there is neither a candidate nor a missing slot")
+    ob.must_hold(n_iter >= 3 and n_ok >= 1 and n_missing >= 1 and n_err >= 1, "slot iteration paths reached: Ok, Err and all-zero (%d/%d/%d)" % (n_ok, n_err, n_missing))
+    return ob.result(it, witness="c03_journal_slot_selection")
 
 
 def scan_epilogue(fns):
